@@ -21,7 +21,6 @@ from pyvc import core
 from pyvc.core import assume, prove, sym_frac
 from pyvc.harness import Harness
 
-import ttconv.model as m
 import ttconv.style_properties as sp
 from ttconv.isd import ISD
 from ttconv.srt.paragraph import SrtParagraph
